@@ -235,32 +235,36 @@ def _r6_r7(ctx):
             if fvt is None or m.get_class(FILE, 'Transformer') not in m.mro(cls_):
                 continue
             rets = [r for r in ast.walk(fvt.node) if isinstance(r, (ast.Return, ast.Assign)) and isinstance(r.value, ast.Call) and r.value.args
-                    and isinstance(r.value.args[0], ast.GeneratorExp) and r.value.args[0].generators[0].ifs]
+                    and isinstance(r.value.args[0], ast.GeneratorExp) and r.value.args[0].generators[0].ifs
+                    and any('is not None' in ast.unparse(i_) for i_ in r.value.args[0].generators[0].ifs)]
             if rets:
-                sites.append((cls_, fvt, rets[-1]))
-    for cls_, f, ret in sites:
+                sites.append((cls_, fvt, rets))
+    for cls_, f, rets in sites:
         cn = cls_.name
-        gen = ret.value.args[0]
-        tgt = gen.generators[0].target
         n7 += 1
         for name, (orig, vis, want) in items.items():
-            env = {'as_tuple': _as_tuple, 'is_iterable': _is_iterable, 'isinstance': isinstance, 'tuple': tuple, 'list': list}
-            if isinstance(tgt, ast.Tuple) and len(tgt.elts) == 2:
-                env[tgt.elts[0].id], env[tgt.elts[1].id] = orig, vis
-            elif isinstance(tgt, ast.Name):
-                env[tgt.id] = vis
-            else:
-                raise AnalysisError(f'{cn}.visit_tuple: filter target `{ast.unparse(tgt)}` not recognised')
-            try:
-                got = all(bool(ev_ext(c, env)) for c in gen.generators[0].ifs)
-            except Unknown as u:
-                raise AnalysisError(f'{cn}.visit_tuple: filter uses `{u}`, outside the evaluated fragment')
+            got = True
+            for ret in rets:                   # an entry survives iff every filtering pass of the function keeps it
+                gen = ret.value.args[0]
+                tgt = gen.generators[0].target
+                env = {'as_tuple': _as_tuple, 'is_iterable': _is_iterable, 'isinstance': isinstance, 'tuple': tuple, 'list': list}
+                if isinstance(tgt, ast.Tuple) and len(tgt.elts) == 2:
+                    env[tgt.elts[0].id], env[tgt.elts[1].id] = orig, vis
+                elif isinstance(tgt, ast.Name):
+                    env[tgt.id] = vis
+                else:
+                    raise AnalysisError(f'{cn}.visit_tuple: filter target `{ast.unparse(tgt)}` not recognised')
+                try:
+                    got = got and all(bool(ev_ext(c, env)) for c in gen.generators[0].ifs)
+                except Unknown as u:
+                    raise AnalysisError(f'{cn}.visit_tuple: filter uses `{u}`, outside the evaluated fragment')
             inst = f'{cn}.visit_tuple:filter:{name}'
+            filt = ' ; then '.join(" and ".join(ast.unparse(c) for c in r_.value.args[0].generators[0].ifs) for r_ in rets)
             if got == want:
                 ctx.judge('R7', inst)
             else:
-                ctx.violation('R7', inst, f'{f.module.relpath}:{ret.lineno}',
-                              f'the filter `{" and ".join(ast.unparse(c) for c in gen.generators[0].ifs)}` {"keeps" if got else "drops"} '
+                ctx.violation('R7', inst, f'{f.module.relpath}:{rets[-1].lineno}',
+                              f'the filter `{filt}` {"keeps" if got else "drops"} '
                               f'{name}: ' + ('None / empty replacements stay in the body' if got else
                                              ('the body of a branch without statements disappears and the remaining bodies shift to the wrong '
                                               'CASE / ELSEWHERE' if 'nested' in name else 'an unmapped node disappears from its parent')))
